@@ -6,6 +6,7 @@ and misses all occur) are exported without sub-classing; every query over <=2 (q
 containment are run through FuzzyFinder in match mode (string and dictionary parameters) and in
 fuzzy mode; the textual output is parsed and compared, combination by combination, with a
 reference evaluation on the source documents."""
+import datetime as dt
 import itertools
 import re
 import uuid
@@ -19,8 +20,11 @@ PROP = "C20"
 LEVEL = "model_checking"
 RULE = ("document sets (values from a two-letter pool; values with blanks at the ends; values carried by exactly one of two "
         "kinds that share the attribute; values of characters special to format strings, SPARQL, XML and regular "
-        "expressions) x every query of <=K attribute/value pairs of one kind (values "
-        "present or absent) + multi-kind queries (also the same attribute = value asked of two kinds) "
+        "expressions; Properties with values of the dtypes int, float, boolean, date, string) x every query of <=K "
+        "attribute/value pairs of one kind (values "
+        "present or absent) + multi-kind queries (also the same attribute = value asked of two kinds) + searches by Property "
+        "value (one to three values: carried by one Property, by several, by two different ones, by none; alone and together "
+        "with Property, Section and Document pairs; match mode) "
         "x {string, dictionary} parameters x {match, fuzzy}; every reported "
         "combination compared with a reference evaluation; non-trivial = a reported combination with at least one matching object")
 WATCHDOG_S = 120
@@ -81,6 +85,9 @@ def doc_sets():
     # values made of characters that mean something to a layer the query text passes through (format strings,
     # SPARQL, regular expressions): one tiny Document per atom, the atoms rotated through the attributes
     sets.append(char_docs())
+    # Properties with values of several dtypes for searches by value: a value carried by several Properties, two values
+    # carried by one Property / by two different Properties, text that looks like a number, values of special characters
+    sets.append(value_docs())
     return sets
 
 
@@ -153,12 +160,95 @@ def char_fuzzy(tier):
     return out
 
 
-SPECIAL_SETS = (6, 8)       # the sets above that come with their own query values
+def value_docs():
+    """Document set for searches by Property value.  20 is carried by five Properties (one of them as text), 25 by three;
+    20 and 25 together by 'Contrast' of Section x in either Document (in either order); 20 and 30 only by two different
+    Properties; the Properties t0, t1, ... of the first Document carry six special-character atoms each, u0, u1, ... of
+    the second every other atom (lists of values are kept short: the generated query relates every requested value to
+    every member of the list)."""
+    S, P = rt.S, rt.P
+    A = char_atoms()
+    v1 = docs.doc_of([
+        S("x", "x", props=[
+            P("Contrast", [20, 25], "int", unit="%"),
+            P("y", [20, -3], "int", unit="x"),
+            P("x", [25, 30], "int", unit="%"),
+            P("f", [1.5, 2.0, 1e-07], "float", unit="x"),
+            P("b", [True, False], "boolean"),
+            P("b1", [True], "boolean", unit="x"),
+            P("d", [{"date": "2020-01-02"}, {"date": "1999-12-31"}], "date"),
+            P("s", ["20", "a b", "true", "2020-01-02", " x"], "string", unit="%"),
+            P("e", [], None, unit="%")]),
+        S("y", "x", props=[
+            P("Contrast", [20], "int", unit="%")] + [P("t%d" % (k // 6), A[k:k + 6], "string") for k in range(0, len(A), 6)])],
+        author="x", version="x")
+    v2 = docs.doc_of([
+        S("x", "y", props=[
+            P("Contrast", [25, 20, 20], "int", unit="mV"),
+            P("f", [2.5], "float")] + [P("u%d" % (k // 12), A[k:k + 12:2], "string") for k in range(0, len(A), 12)],
+          secs=[S("x", "x", props=[P("Contrast", [20, 25], "int", unit="%")])])],
+        author="y", version="x")
+    return [v1, v2]
+
+
+def value_queries(tier):
+    """Queries for value_docs(): a 'value' pair holds a list of values, all of which one Property must carry."""
+    V = lambda *vals: ("Prop", ("value", list(vals)))
+    queries = []
+    # one value: hits of every dtype (a value that several Properties share among them), misses next to them
+    for v in ["20", "25", "30", "-3", "1.5", "2.0", "1e-07", "2.5", "true", "false", "2020-01-02", "1999-12-31", "a b", " x",
+              "21", "3", "0.5", "z", "x", "2001-01-01", "a", "b"]:
+        queries.append([V(v)])
+    # several values: carried by one Property / by two different Properties / one of them by none
+    for vals in [("20", "25"), ("25", "20"), ("20", "30"), ("25", "30"), ("20", "21"), ("21", "20"), ("21", "22"), ("20", "20"),
+                 ("20", "-3"), ("true", "false"), ("1.5", "2.0"), ("1.5", "2.5"), ("2020-01-02", "1999-12-31"),
+                 ("2020-01-02", "2001-01-01"), ("20", "a b"), ("20", "true", "2020-01-02"), ("20", "25", "30"), ("1.5", "2.0", "1e-07")]:
+        queries.append([V(*vals)])
+    # together with other Property attributes (the value pair first, in the middle, last)
+    for other in [("name", "Contrast"), ("name", "y"), ("name", "s"), ("unit", "%"), ("unit", "mV"), ("unit", "x"), ("dtype", "int"),
+                  ("dtype", "string"), ("name", "z")]:
+        queries.append([("Prop", other), V("20")])
+        queries.append([V("20", "25"), ("Prop", other)])
+    queries.append([("Prop", ("name", "Contrast")), V("20", "25"), ("Prop", ("unit", "%"))])
+    queries.append([("Prop", ("name", "Contrast")), V("25"), ("Prop", ("unit", "mV"))])
+    queries.append([("Prop", ("name", "x")), V("20"), ("Prop", ("unit", "%"))])
+    queries.append([("Prop", ("name", "b1")), V("true")])
+    queries.append([("Prop", ("name", "b1")), V("false")])
+    queries.append([("Prop", ("unit", "%")), V("21")])
+    queries.append([("Prop", ("unit", "%")), V("true")])
+    # together with Section and Document pairs
+    for sec in [("name", "x"), ("name", "y"), ("type", "x"), ("type", "y"), ("name", "z")]:
+        queries.append([("Sec", sec), V("20")])
+        queries.append([("Sec", sec), V("20", "25")])
+    queries.append([("Sec", ("name", "x")), ("Sec", ("type", "x")), V("25")])
+    queries.append([("Sec", ("name", "y")), ("Prop", ("name", "Contrast")), V("20")])
+    queries.append([("Sec", ("name", "y")), ("Prop", ("name", "Contrast")), V("25")])
+    queries.append([("Sec", ("name", "x")), ("Prop", ("name", "x")), V("30")])
+    for d in [("author", "x"), ("author", "y"), ("version", "x")]:
+        queries.append([("Doc", d), ("Sec", ("name", "x")), V("25", "20")])
+        queries.append([("Doc", d), ("Sec", ("type", "x")), V("30")])
+    queries.append([("Doc", ("author", "y")), ("Sec", ("name", "x")), ("Prop", ("unit", "mV")), V("20")])
+    # values of special characters: each atom alone (carried by one or two Properties), two neighbours (one Property, or
+    # two different ones), an atom together with a number (no Property)
+    A = char_atoms()
+    for i, a in enumerate(A):
+        queries.append([V(a)])
+        if tier == "thorough" or i % 3 == 0:
+            queries.append([V(a, A[(i + 1) % len(A)])])
+        if tier == "thorough" or i % 8 == 0:
+            queries.append([V(a, "20")])
+            queries.append([("Sec", ("name", "y")), V(a)])
+    return queries
+
+
+SPECIAL_SETS = (6, 8, 9)       # the sets above that come with their own query values
 
 
 def special_queries(K, si=6, tier="quick"):
     if si == 8:
         return char_queries(K, tier)
+    if si == 9:
+        return value_queries(tier)
     values = {"author": ["x", "x ", " x"], "version": ["42", "0.9", "x"], "name": ["x", "x ", " x"], "type": ["x", "x ", " x"],
               "definition": ["x", "x ", " x"], "unit": ["y", "y ", " y"], "dtype": ["int"]}
     attrs = {"Doc": ["author", "version"], "Sec": ["name", "type", "definition"], "Prop": ["name", "unit", "dtype"]}
@@ -190,9 +280,23 @@ def text_of(v):
     return str(v)
 
 
+def exported_text(x):
+    """The text of a Property value in the RDF export (what STR() gives for the exported literal): booleans are written
+    true / false, dates in ISO form, numbers the way Python prints them, text as it is."""
+    if isinstance(x, bool):
+        return "true" if x else "false"
+    if isinstance(x, (dt.date, dt.time)):
+        return x.isoformat()
+    return str(x)
+
+
 def carries(obj, attr, val):
     if attr == "id":
         return obj.id == val
+    if attr == "value":
+        # val: the requested values; the Property must carry every one of them
+        have = set(exported_text(x) for x in obj.values)
+        return all(str(v) in have for v in val)
     v = getattr(obj, attr)
     if v is None:
         return False
@@ -238,6 +342,14 @@ def evaluate(documents, combo):
     return None, kinds          # Doc + Prop without Sec: not judged
 
 
+def canon(pair):
+    """A pair as it is identified in a combination: the values of a 'value' pair form a set."""
+    kind, (a, v) = pair
+    if a == "value":
+        return (kind, (a, tuple(sorted(set(str(x) for x in v)))))
+    return (kind, (a, v))
+
+
 def combos_of(pairs):
     """All non-empty combinations of the given pairs, as frozensets."""
     out = []
@@ -254,7 +366,10 @@ BIND = re.compile(r'^\?([dsp]) odml:(\w+) \?(\w+) \.$')
 FILT = re.compile(r'^FILTER\(STR\(\?(\w+)\) = "(.*)"\) \.$')
 IDF = re.compile(r'^FILTER\(STRENDS\(STR\(\?([dsp])\), "#(.*)"\)\) \.$')
 IDIRI = re.compile(r'^FILTER\(\?([dsp]) = <https://g-node\.org/odml-rdf#(.*)>\) \.$')
-ROWLABEL = {"Document": "d", "Section": "s", "Property": "p"}
+VALNODE = re.compile(r'^\?p odml:hasValue \?(\w+) \.$')
+VALMEMBER = re.compile(r'^\?(\w+) (?:\?\w+|rdf:\w+) \?(\w+) \.$')
+VALLIT = re.compile(r'^\?(\w+) (\?\w+|rdf:\w+) "(.*)" \.$')
+ROWLABEL = {"Document": "d", "Section": "s", "Property": "p"}       # other labels (the node of the value list) are not judged
 
 
 ESCAPES = {"t": "\t", "n": "\n", "r": "\r", "b": "\b", "f": "\f", '"': '"', "'": "'", "\\": "\\"}
@@ -269,7 +384,8 @@ def literal_text(s):
 def parse_output(text):
     """-> list of (frozenset of (kind,(attr,value)), set of rows) in output order.  The combination a block
     belongs to is read off the query text the finder prints (plain triple patterns, or a variable
-    plus a FILTER on its text, or a FILTER on the node IRI for ids)."""
+    plus a FILTER on its text, or a FILTER on the node IRI for ids; for a 'value' pair the node ?p odml:hasValue points
+    to, and for each requested value either a member variable plus a FILTER on its text or a literal member)."""
     blocks = text.split("SELECT * WHERE {\n")
     out = []
     rev = {"d": "Doc", "s": "Sec", "p": "Prop"}
@@ -277,8 +393,26 @@ def parse_output(text):
         head, _, tail = b.rpartition("}\n") if False else b.partition("}\n")
         pairs = []
         bound = {}
+        valnodes, valmembers, values = set(), set(), []
         for ln in head.splitlines():
             ln = ln.strip()
+            m = VALNODE.match(ln)
+            if m:
+                valnodes.add(m.group(1))
+                continue
+            m = VALMEMBER.match(ln)
+            if m and m.group(1) in valnodes:
+                valmembers.add(m.group(2))
+                continue
+            m = VALLIT.match(ln)
+            if m and m.group(1) in valnodes:
+                if m.group(2) != "rdf:type":
+                    values.append(literal_text(m.group(3)))
+                continue
+            m = FILT.match(ln)
+            if m and m.group(1) in valmembers:
+                values.append(literal_text(m.group(2)))
+                continue
             m = LINE.match(ln)
             if m:
                 kind = rev[m.group(1)]
@@ -303,6 +437,8 @@ def parse_output(text):
             m = IDIRI.match(ln)
             if m:
                 pairs.append((rev[m.group(1)], ("id", m.group(2))))
+        if valnodes:
+            pairs.append(canon(("Prop", ("value", values))))
         kinds = sorted(set(k for k, _ in pairs), key=["Doc", "Sec", "Prop"].index)
         want_vars = [KINDVAR[k] for k in kinds]
         rows = set()
@@ -332,15 +468,34 @@ KINDVAR = {"Doc": "d", "Sec": "s", "Prop": "p"}
 def query_string(pairs):
     by = {}
     for kind, (a, v) in pairs:
-        by.setdefault(kind, []).append("%s:%s" % (a, v))
+        by.setdefault(kind, []).append("%s:%s" % (a, v) if a != "value" else "value:[%s]" % ", ".join(v))
     return " ".join("%s(%s)" % (KIND_WORD[k], ", ".join(by[k])) for k in ("Doc", "Sec", "Prop") if k in by)
 
 
-def query_dict(pairs):
+def query_dict(pairs, native=False):
+    """native: the values of a 'value' pair are passed as numbers / dates where their text is that of a number / date
+    (the library's documentation writes ('value', [20, 25]))."""
     by = {}
-    for kind, pair in pairs:
-        by.setdefault(kind, []).append(tuple(pair))
+    for kind, (a, v) in pairs:
+        if a == "value":
+            v = [native_of(x) if native else x for x in v]
+        by.setdefault(kind, []).append((a, v))
     return by
+
+
+def native_of(text):
+    for conv in (int, float, lambda t: dt.datetime.strptime(t, "%Y-%m-%d").date()):
+        try:
+            n = conv(text)
+        except ValueError:
+            continue
+        if str(n) == text:
+            return n
+    return text
+
+
+def has_native(pairs):
+    return any(a == "value" and any(native_of(x) != x for x in v) for _, (a, v) in pairs)
 
 
 def gen_cases(tier):
@@ -378,6 +533,18 @@ def gen_cases(tier):
     # and id; Documents share id with both): in some document sets both kinds carry the value, in others exactly one
     # does - in either order - or none.  A third pair that has hits makes combinations without the hit-less pair
     queries += shared_queries()
+    # searches by Property value on the same document sets (their Properties carry 1 .. 5 and a, b, c): one value, two
+    # values (never carried by one Property there), with a Property / Section / Document pair; document set 9 has more
+    V = lambda *vals: ("Prop", ("value", list(vals)))
+    for v in ("1", "2", "a", "9"):
+        queries.append([V(v)])
+        queries.append([("Prop", ("name", "x")), V(v)])
+        queries.append([("Sec", ("name", "x")), V(v)])
+    queries.append([V("1", "2")])
+    queries.append([V("1", "1")])
+    queries.append([("Prop", ("unit", "x")), ("Prop", ("dtype", "int")), V("1")])
+    queries.append([("Doc", ("author", "x")), ("Sec", ("name", "x")), V("1")])
+    queries.append([("Doc", ("author", "x")), ("Sec", ("type", "y")), V("3")])
     fuzzy = [({"Sec": ["name"]}, ["x"]), ({"Sec": ["name", "type"]}, ["x", "y"]), ({"Prop": ["name", "unit"]}, ["x"]),
              ({"Doc": ["author"]}, ["x", "z"]), ({"Sec": ["name"], "Prop": ["name"]}, ["x"]),
              ({"Sec": ["type"], "Prop": ["unit"]}, ["x", "y"]), ({"Doc": ["author", "version"], "Sec": ["name"]}, ["y"]),
@@ -394,7 +561,7 @@ def gen_cases(tier):
         qs = special_queries(K, si, tier) if si in SPECIAL_SETS else queries
         for chunk in par.chunks(qs, 24 if tier == "quick" else 48):
             cases.append({"set": si, "queries": chunk, "fuzzy": []})
-        fz = fuzzy if si not in SPECIAL_SETS else fuzzy_special if si == 6 else char_fuzzy(tier)
+        fz = fuzzy if si not in SPECIAL_SETS else fuzzy_special if si == 6 else char_fuzzy(tier) if si == 8 else []
         for chunk in par.chunks(fz, 16):
             cases.append({"set": si, "queries": [], "fuzzy": chunk})
     return cases
@@ -447,6 +614,8 @@ def fix_ids(documents, pairs):
                 v = "no such id"
             elif v == "<miss>":
                 v = MISS_ID
+        if a == "value":
+            v = tuple(v)
         out.append((kind, (a, v)))
     return out
 
@@ -482,7 +651,7 @@ def run_case(case):
         for combo in combos_of(pairs):
             # a combination that asks two different values of one attribute of one kind can never hit
             rows, kinds = evaluate(documents, list(combo))
-            expected[combo] = rows
+            expected[frozenset(canon(p) for p in combo)] = rows
         seen = set()
         sizes = []
         for combo, rows in reported:
@@ -515,12 +684,14 @@ def run_case(case):
     for q, styles in passes:
         current = {"queries": [[[k, list(p)] for k, p in q] for q in case["queries"]], "fuzzy": []}
         pairs = fix_ids(documents, [(k, tuple(p)) for k, p in q])
+        if "dict" in styles and has_native(pairs):
+            styles = styles + ("dict-native",)
         for style in styles:
             try:
                 if style == "string":
                     text = FuzzyFinder().find(mode="match", graph=graph, q_str=query_string(pairs))
                 else:
-                    text = FuzzyFinder().find(mode="match", graph=graph, q_params=query_dict(pairs))
+                    text = FuzzyFinder().find(mode="match", graph=graph, q_params=query_dict(pairs, style == "dict-native"))
                 execs += 1
             except Exception as exc:
                 fail("search-raises", "match", style, pairs, "%s: %s" % (type(exc).__name__, str(exc)[:160]))
@@ -572,7 +743,19 @@ def check(tier):
         "documents are exported without Section sub-classing, values are free of , ( ) : and double quote (as the statement says)",
         "an object 'carries' a value when the text of its attribute equals the text given in the query (uncertainty: numeric equality)",
         "queries with Document and Property pairs but no Section pair are executed but not judged (kinds are related by direct "
-        "containment only); 'value' searches are not part of the quantifier",
+        "containment only)",
+        "a Property carries the values of a pair ('value', [v1, v2, ...]) when for every vi the text str(vi) equals the text of one "
+        "of its values as exported to RDF (int and float as Python prints them, boolean as true / false, date in ISO form, "
+        "text as it is): the pair takes part in the combinations of match mode as one pair (all its values or none), is "
+        "written value:[v1, v2] in a query string, and is identified in the printed report by the member patterns of the "
+        "node odml:hasValue points to (the order and repetition of the values do not matter; the 'Bag URI' line of a "
+        "reported row is not judged)",
+        "value searches leave out what the statement leaves open or excludes: requested texts that equal no exported text "
+        "but denote the same number / truth value (2 for 2.0, True for true), values with , ( ) : or double quote (datetime, "
+        "time, n-tuples), an empty list of values, two 'value' pairs in one query; in the dictionary way the values are "
+        "passed as text and, where the text is that of an int, float or date, also as such an object (style dict-native)",
+        "fuzzy mode has no notion of a value search ('value' is not among the attributes QueryParserFuzzy knows): "
+        "none is enumerated there",
         "a combination that contains two different values for one attribute of one kind has no matching object and must not be reported",
         "fuzzy terms with a blank at either end are passed by dictionary only (the 'HAVING a, b' form separates by comma and blank)",
         "the value a printed query asks for is the text its SPARQL string literal denotes (escape sequences resolved)",
@@ -581,7 +764,9 @@ def check(tier):
          if SKIP_BASELINE_DEFECT_ATOMS else []))
     cases = gen_cases(tier)
     run.bounds = {"pairs_per_kind": 2 if tier == "quick" else 3, "document_sets": len(doc_sets()),
-                  "special_character_values": len(char_atoms())}
+                  "special_character_values": len(char_atoms()),
+                  "values_per_value_search": 3, "value_searches": sum(
+                      1 for c in cases for q in c["queries"] if any(p[0] == "value" for _, p in q))}
     run.layer("match+fuzzy", cases=len(cases), queries=sum(len(c["queries"]) + len(c["fuzzy"]) for c in cases))
     par.run_cases(run, "checks.c20", cases, nchunks=par.JOBS * 8)
     return run.finish(reproduce=lambda f: replay(f))
